@@ -150,7 +150,8 @@ def check(ctx: Ctx, col: Collector, tier: str) -> None:
                             want = True
                         elif nform in ("private", "mangled", "private-trailing", "private-dunder-tail"):
                             want = False
-                        elif pkind in ("Class", "Constructor") and nform in ("plain", "init"):
+                        elif pkind in ("Class", "Constructor") and nform in ("plain", "init", "dunder"):
+                            # a member that is not private is as public as its class, which may be public through a re-export only
                             want = ppub
                         else:
                             want = segs_public
@@ -193,7 +194,8 @@ def check(ctx: Ctx, col: Collector, tier: str) -> None:
         if not (same_pkg or other_pkg):
             n3.append(fmt_facts(o.facts)[:160])
         # N2: by-name re-exports (third block): the import's qualified name is a suffix of the declaration's qualified name
-        byname = any(".qualified_imports[*].qualified_name" in k and k.startswith("truthy:.endswith(") and "<qname>" in k and v for k, v in facts.items())
+        # ... or, resolved against the re-exporting package, is that name (a membership of qname in the set of resolutions)
+        byname = any(".qualified_imports[*].qualified_name" in k and (k.startswith("truthy:.endswith(") and "<qname>" in k or k.startswith("<qname> in {")) and v for k, v in facts.items())
         whole_module = any("module_is_reexported" in k for k in facts) or any(re.search(r"in \{.*\.\*", k) and v for k, v in facts.items())
         if not byname and not whole_module:
             n2.append(fmt_facts(o.facts)[:200])
@@ -205,8 +207,8 @@ def check(ctx: Ctx, col: Collector, tier: str) -> None:
                                               "each True path established 'the re-exporting __init__ is the own package (id equality) or the key names the declaration/module'" if trues and not n3 else f"{n3[:2]}",
                                               *([] if trues and not n3 else ["a path returns True without having tied the re-exporting __init__ to the declaration's package or qualified name"]))
     (col.ok if trues and not n2 else col.bad)("C04.REEXPORT-GUARDS", f"{key0}::true-implies-import-names-declaration", repo.loc(VISITOR, rfi.node),
-                                              "each True path is a whole-module re-export or has qname.endswith(import.qualified_name)" if trues and not n2 else f"{n2[:2]}",
-                                              *([] if trues and not n2 else ["a by-name re-export makes a declaration public without checking that the imported qualified name is a suffix of the declaration's qualified name"]))
+                                              "each True path is a whole-module re-export or has tied the imported qualified name to the declaration's qualified name (suffix or resolved equality)" if trues and not n2 else f"{n2[:2]}",
+                                              *([] if trues and not n2 else ["a by-name re-export makes a declaration public without checking that the imported qualified name names the declaration (suffix of / resolved equality with its qualified name)"]))
     good = others <= {"None"}
     (col.ok if good else col.bad)("C04.REEXPORT-GUARDS", f"{key0}::verdicts", repo.loc(VISITOR, rfi.node), f"verdicts: True or {sorted(others)}",
                                   *([] if good else [f"_check_publicity_in_reexports returns {sorted(others)} besides True/None"]))
@@ -305,6 +307,31 @@ def check(ctx: Ctx, col: Collector, tier: str) -> None:
     else:
         col.ok("C04.REEXPORT-GUARDS", key, repo.loc(VISITOR, tnode2), f"the private twin module's declaration stays private (outcomes {sorted(verdicts)})")
 
+    # ... and it names the declaration itself: a module import of the __init__ (`from . import config`, `import logging`: key `config` / `logging`)
+    # does not publish an equally named declaration of another, private module of the package (pkg/_impl.py: def config())
+    for imp, desc in (("config", "from . import config"), ("logging", "import logging")):
+        cit = ctx.interp(rfi, inline={"is_internal"})
+        cmf = Obj("MypyFile", (("fullname", Const("pkg._impl")), ("name", Const("_impl"))))
+        cit.run_function(rfi, {"self": Sym("self"), "name": Const(imp), "qname": Const(f"pkg._impl.{imp}"), "parent": Obj("Module", ())},
+                         State({"self": Sym("self"), "self.api": Sym("self.api"), "self.mypy_file": cmf}))
+        cl = find_loops(cit, rfi, lambda v: "reexport_map[" in repr(v) and "wildcard" not in repr(v) and "qualified" not in repr(v))
+        if len(cl) != 1:
+            raise AnalysisError("loop over the re-exporting modules not found (coincidence probe)")
+        cnode, _, _, centry = cl[0]
+        e = centry.clone()
+        e.env["reexported_key"] = Const(imp)
+        e.env["module_is_reexported"] = Const(False)
+        src = Obj("Module", (("id", Const("pkg")), ("wildcard_imports", ListV(())),
+                             ("qualified_imports", ListV((Obj("QualifiedImport", (("qualified_name", Const(imp)), ("alias", Const(None)))),)))))
+        verdicts = {("True" if o.kind == "return" and o.value == Const(True) else o.kind) for o in run_body(cit, cnode, e, src)}
+        key = f"{key0}::by-name-source::name-coincidence pkg._impl.{imp}<-{imp}"
+        if "True" in verdicts:
+            col.bad("C04.REEXPORT-GUARDS", key, repo.loc(VISITOR, cnode), f"outcomes {sorted(verdicts)}",
+                    f"`{desc}` in pkg/__init__.py makes the function `{imp}` of the private module pkg/_impl.py public (and moves it to package pkg): the imported name `{imp}` is compared with the "
+                    f"tail of the declaration's qualified name (pkg._impl.{imp}), although relative to the importing package it names pkg.{imp}")
+        else:
+            col.ok("C04.REEXPORT-GUARDS", key, repo.loc(VISITOR, cnode), f"`{desc}` leaves pkg._impl.{imp} private (outcomes {sorted(verdicts)})")
+
     # ------------------------------------------------------------------ REEXPORT-TABLE (both directions, per import form)
     reexport_table(ctx, col)
 
@@ -399,7 +426,8 @@ def reexport_table(ctx: Ctx, col: Collector) -> None:
                                     + ("" if want or not (True in got) else f": `from . import {mname}` in an __init__.py publishes every public-named member of the private module {mname}"))
     # "the import names the declaration": a suffix test of the declaration's qualified name against the imported name, in any spelling
     # (plain, or with a separator prepended to both sides so that whole segments are compared)
-    a_end = lambda k: k.startswith("truthy:.endswith(") and "<qname>" in k and "<Q>" in k  # noqa: E731
+    # ... or a membership of the declaration's qualified name in the resolutions of the imported name (absolute, relative to the importing package)
+    a_end = lambda k: (k.startswith("truthy:.endswith(") and "<qname>" in k and "<Q>" in k) or (k.startswith("<qname> in {") and "<Q>" in k)  # noqa: E731
     for ni in (True, False):
         t = verdicts(n2, e2, {"not_internal": Const(ni)}, qi, [a_end, a_none, a_priv])
         for (endq, anone, apriv), got in sorted(t.items()):
